@@ -88,6 +88,11 @@ CHECKS = {
          "46 syntactic positions (operands of every operator class, call arguments and receivers, macro ranges/bodies/nested bodies/predicates, reduce seed and step, f-string segments, index expressions, map keys and values, list elements, match scrutinees/patterns/arms, ternary conditions and branches incl. untaken ones, has/coalesce arguments, member chain roots, parentheses) x 4 fillers, and all ordered pairs of positions x fillers (8464 programs): Free(E) in params(E) in Idents(E); binding every reported name leaves no free variable unbound; filter_from_bindings removes exactly the names bound as variable (every subset of up to 2), function or macro. Complete for these bounds only.",
          "Loop variables, function names and field names may be reported; only names that do not occur in the source are excluded.",
          "DESIGN.md section 3, C17"),
+ "C18": ("exploration",
+         "bounded exhaustive enumeration of token sequences x whitespace layouts with a walk over every node of the public syntax tree, and of all single-token edits for the error locations",
+         "15.4k/0.5M token sequences (every flat operator sequence with <=1/2 operators, plain and with 29 prefix/postfix decorations on one operand, operands partly string literals with 2- and 4-byte characters, plus 30 structural sources) x 6 whitespace policies x 4 paddings: every expression node has a span inside the source, inside its parent and disjoint from its siblings, the root spans the trimmed source, the spanned text compiled alone gives the same canonical subtree; every token span is increasing, non-overlapping and re-lexes to the same token. Every single-token deletion, duplication, replacement by each of 12 tokens and truncation of those sequences in 3 layouts (8.4M/... edited sources): a syntax-error location has line < number of lines and column <= the length of that line. Complete for these bounds only.",
+         "Lines/columns count characters from 0. Spans of match patterns and of the auxiliary !/- list nodes are excluded.",
+         "DESIGN.md section 3, C18"),
  "C19": ("exploration",
          "bounded exhaustive enumeration of generated and constant-rich programs x {serde_json, bincode} x bindings, differential between the original and the round-tripped program",
          "13k/0.3M programs: the C10 program set (every ByteCode variant, nested code blocks for calls, macros and f-strings) plus 428 constant-rich programs (every serialisable value variant with boundary payloads - int/uint extremes, +-0.0, +-inf, NaN, subnormals, strings with quotes/NUL/non-BMP, all 256 bytes, nested lists/maps, types, timestamps and durations at millisecond resolution incl. negative and extreme - and every error constant the folder produces, each alone and inside a list, a map, a comparison, a macro, a ternary, a coalesce) in both formats: serialization and deserialization succeed, source and parameter set equal, a second round trip has the same bytes, and both programs give the same value or the same error kind under 4 bindings. Complete for this program set only.",
